@@ -128,6 +128,8 @@ FIXED = {
    ("C06", "regression of the dir-size fix: a symbolic link through a regular file (ENOTDIR), to itself (ELOOP) or to an over-long name made DIRSIZE answer -1 for its directory and all ancestors, while listings and stat omit such links as dangling", "dirsize plain-path DIRSIZE /tNNNN_links answered -1")],
  "the size check of a tree does not wrap for a member of nearly 2^63 bytes": [
    ("C04", "regression/gap of the tree-size fix: (size+2047)/2048 wraps for a sparse member of more than MaxInt64-2047 bytes (tmpfs/xfs/btrfs accept it), the member passed the refusal and the builder allocated without bound: out of memory in the server and in make-iso (probed in a child process under an address-space cap, tree on /dev/shm)", "process-died huge-member; cli-crash make-iso: huge-member")],
+ "a request that arrived in time is not lost to a deadline the busy server noticed late": [
+   ("C16", "third bug-hunt round: an active connection (complete STAT requests every 0.8 T) was cut when the server was busy (GOMAXPROCS=1, clients streaming an encrypted image): the command was read in time, the read of its path started after the absolute deadline and failed without looking at the socket. Not reachable by a workload in virtual time (nothing delays a goroutine there), so a verif-tagged hook between command and argument reads was added (commit 67def34) and the synctest monitor injects the delay a busy scheduler causes: deterministic", "active-cut active-0.800T-server-late-0.300T / active-0.500T-server-late-0.600T")],
  "decrypt 3k3y also removes the watermark": [
    ("C20", "decrypt 3k3y output kept watermark+key with a cleared region table: placed under a served root it could not be opened (second transformation attempted)", "serve-back-failed 3k3y-from-PS3ISO / 3k3y-from-GAMES")],
 }
